@@ -76,6 +76,9 @@ pub struct Counters {
     pub short_reads: u64,
     pub short_writes: u64,
     pub interrupted: u64,
+    /// Successful underlying writes since the last successful underlying flush: what a
+    /// write-behind backing store would still hold in its cache.
+    pub writes_since_flush: u64,
 }
 
 pub struct MonState {
@@ -198,6 +201,9 @@ impl Shared {
     }
     pub fn disarm(&self) {
         self.arm(Vec::new());
+    }
+    pub fn writes_since_flush(&self) -> u64 {
+        self.lock().c.writes_since_flush
     }
     pub fn pause_faults(&self, on: bool) {
         self.lock().faults_paused = on;
@@ -338,6 +344,9 @@ impl Write for MonFile {
         }
         self.pos += n as u64;
         g.c.bytes_written += n as u64;
+        if n > 0 {
+            g.c.writes_since_flush += 1;
+        }
         g.record(K_WRITE, pos, req, Ok(n as u64));
         Ok(n)
     }
@@ -350,6 +359,7 @@ impl Write for MonFile {
             g.record(K_FLUSH, pos, 0, Err(err));
             return Err(io::Error::new(err, "injected flush fault"));
         }
+        g.c.writes_since_flush = 0;
         g.record(K_FLUSH, pos, 0, Ok(0));
         Ok(())
     }
